@@ -13,8 +13,8 @@ import (
 
 	"github.com/TarsCloud/TarsGo/tars/protocol"
 	"github.com/TarsCloud/TarsGo/tars/protocol/res/basef"
-	"github.com/TarsCloud/TarsGo/tars/util/current"
 	"github.com/TarsCloud/TarsGo/tars/transport"
+	"github.com/TarsCloud/TarsGo/tars/util/current"
 	"github.com/TarsCloud/TarsGo/tars/util/vhook"
 	"verifharness/internal/tr"
 )
@@ -55,7 +55,9 @@ type sdState struct {
 	hits  map[string]int
 	// connections whose recv goroutine reported its close (hook tcp.recv.closed) / whose client saw the end of the stream
 	closed, eof map[int]bool
+	noted       map[int]bool // connections whose client has received the close message
 	aborted     map[int]bool // connections whose client vanished with a reset
+	addr        string       // listen address of the current run's server (the accept loop of an earlier run may report late)
 }
 
 var sd = &sdState{hits: map[string]int{}}
@@ -64,6 +66,11 @@ func sdHook(point string, a ...interface{}) {
 	sd.mu.Lock()
 	rec := sd.rec
 	sd.hits[point]++
+	if len(a) > 0 {
+		if s, ok := a[0].(string); ok && s != sd.addr { // accept-loop hooks carry the listen address
+			rec = nil
+		}
+	}
 	var cid int
 	if len(a) > 0 {
 		if c, ok := a[0].(net.Conn); ok && c != nil {
@@ -109,42 +116,51 @@ func sdHook(point string, a ...interface{}) {
 	}
 }
 
-func sdScenario(rng *rand.Rand, n, q int, ctxTimeout time.Duration, abortAll bool) []tr.Ev {
-	rec := tr.New()
+// sdRun is one run: a real TarsServer, scripted clients (connections 1..nconn) and their readers.
+// Request ids are 10*connection + ordinal on that connection (ConnOf in Trace_ServerShutdown).
+type sdRun struct {
+	rec     *tr.Rec
+	srv     *transport.TarsServer
+	conns   []net.Conn
+	nconn   int
+	ord     []int // requests sent so far per connection
+	readers sync.WaitGroup
+	served  chan struct{}
+	calls   sync.WaitGroup // calls of Shutdown in flight
+}
+
+func sdOpen(n, q, nconn int) *sdRun {
+	x := &sdRun{rec: tr.New(), nconn: nconn, ord: make([]int, nconn+1), served: make(chan struct{})}
+	rec := x.rec
 	ln, _ := net.Listen("tcp", "127.0.0.1:0")
 	addr := ln.Addr().String()
 	ln.Close()
-	srv := transport.NewTarsServer(sdProto{}, &transport.TarsServerConf{Proto: "tcp", Address: addr, MaxInvoke: int32(n), QueueCap: q,
+	x.srv = transport.NewTarsServer(sdProto{}, &transport.TarsServerConf{Proto: "tcp", Address: addr, MaxInvoke: int32(n), QueueCap: q,
 		AcceptTimeout: 500 * time.Millisecond, IdleTimeout: 600 * time.Second, TCPReadBuffer: 1 << 16, TCPWriteBuffer: 1 << 16})
-	if err := srv.Listen(); err != nil {
+	if err := x.srv.Listen(); err != nil {
 		panic(err)
-	}
-	nconn := 1 + rng.Intn(2)
-	if abortAll {
-		nconn = 2
 	}
 	sd.mu.Lock()
 	sd.rec = rec
+	sd.addr = addr
 	sd.conns = map[string]int{}
-	sd.closed, sd.eof, sd.aborted = map[int]bool{}, map[int]bool{}, map[int]bool{}
+	sd.closed, sd.eof, sd.aborted, sd.noted = map[int]bool{}, map[int]bool{}, map[int]bool{}, map[int]bool{}
 	sd.mu.Unlock()
 	rec.Emit("Config", "n", n, "q", q, "conns", nconn)
-	served := make(chan struct{})
-	go func() { srv.Serve(); close(served) }()
-	conns := make([]net.Conn, nconn+1)
-	var readers sync.WaitGroup
+	go func() { x.srv.Serve(); close(x.served) }()
+	x.conns = make([]net.Conn, nconn+1)
 	for c := 1; c <= nconn; c++ {
 		k, err := net.Dial("tcp", addr)
 		if err != nil {
 			panic(err)
 		}
-		conns[c] = k
+		x.conns[c] = k
 		sd.mu.Lock()
 		sd.conns[k.LocalAddr().String()] = c
 		sd.mu.Unlock()
-		readers.Add(1)
+		x.readers.Add(1)
 		go func(c int, k net.Conn) { // client reader: responses, close message, EOF
-			defer readers.Done()
+			defer x.readers.Done()
 			gone := func() bool { sd.mu.Lock(); defer sd.mu.Unlock(); return sd.aborted[c] }
 			defer func() {
 				sd.mu.Lock()
@@ -172,6 +188,9 @@ func sdScenario(rng *rand.Rand, n, q int, ctxTimeout time.Duration, abortAll boo
 					return
 				}
 				if len(body) == 4 && body[0] == 0xff {
+					sd.mu.Lock()
+					sd.noted[c] = true
+					sd.mu.Unlock()
 					rec.Emit("CloseMsgRecv", "c", c)
 				} else if len(body) >= 8 {
 					rec.Emit("RespRecv", "c", c, "r", int(binary.BigEndian.Uint32(body[0:4])))
@@ -179,80 +198,83 @@ func sdScenario(rng *rand.Rand, n, q int, ctxTimeout time.Duration, abortAll boo
 			}
 		}(c, k)
 	}
-	long := rng.Intn(4) == 0 // one handler that outlasts the poller's 2-second idle rule
-	abort := !long && nconn == 2 && rng.Intn(4) == 0
-	if abortAll {
-		long, abort = false, true
-	}
 	time.Sleep(5 * time.Millisecond) // let the server register the connections
-	durs := []uint32{0, 0, 30, 150, 400}
-	nreq := rng.Intn(7)
-	if abort && nreq < 2 {
-		nreq = 2
+	return x
+}
+
+// send writes the next request of connection c: handler duration d ms, one-way or not
+func (x *sdRun) send(c int, d uint32, oneway bool) int {
+	x.ord[c]++
+	r := 10*c + x.ord[c]
+	p := make([]byte, 16)
+	binary.BigEndian.PutUint32(p, 16)
+	binary.BigEndian.PutUint32(p[4:], uint32(r))
+	binary.BigEndian.PutUint32(p[8:], uint32(c))
+	if oneway {
+		d |= sdOneWay
 	}
-	if n > 0 && rng.Intn(2) == 0 { // load that keeps the pool's queue occupied when the shutdown begins
-		durs = []uint32{30, 150, 400, 400}
-		nreq = 3 + rng.Intn(4)
-	}
-	for r := 1; r <= 8 && nreq > 0; r++ {
-		c := 2 - r%2 // odd -> 1, even -> 2
-		if c > nconn {
-			continue
-		}
-		nreq--
-		p := make([]byte, 16)
-		binary.BigEndian.PutUint32(p, 16)
-		binary.BigEndian.PutUint32(p[4:], uint32(r))
-		binary.BigEndian.PutUint32(p[8:], uint32(c))
-		d := durs[rng.Intn(len(durs))]
-		if long {
-			d, long = 2700, false
-		}
-		if abort && c == 1 && r == 1 {
-			d = 300 // the request that is still running when its client vanishes
-		}
-		if r == 3 || r == 6 { // one-way requests (OneWay in Trace_ServerShutdown)
-			d |= sdOneWay
-		}
-		binary.BigEndian.PutUint32(p[12:], d)
-		rec.Emit("ReqSent", "c", c, "r", r)
-		conns[c].Write(p)
-		if rng.Intn(3) == 0 {
-			time.Sleep(time.Duration(rng.Intn(20)) * time.Millisecond)
-		}
-	}
-	if abort && nconn == 2 {
-		// the client of connection 1 vanishes with a reset while its request is still being handled: the connection stays
-		// registered, writing to it fails; the client of connection 2 is healthy and must get its notification all the same
-		time.Sleep(15 * time.Millisecond)
+	binary.BigEndian.PutUint32(p[12:], d)
+	x.rec.Emit("ReqSent", "c", c, "r", r, "ow", oneway)
+	x.conns[c].Write(p)
+	return r
+}
+
+// sendLate: a request sent while Shutdown is running, after ms milliseconds (before the poller's first round at 500 ms sends the
+// close message); a client that has been told to reconnect, or has seen the end of the stream, sends nothing more
+func (x *sdRun) sendLate(c int, ms int, d uint32) {
+	x.calls.Add(1)
+	go func() {
+		defer x.calls.Done()
+		time.Sleep(time.Duration(ms) * time.Millisecond)
 		sd.mu.Lock()
-		sd.aborted[1] = true
+		stop := sd.noted[c] || sd.eof[c] || sd.aborted[c]
 		sd.mu.Unlock()
-		rec.Emit("ClientAbort", "c", 1)
-		if tc, ok := conns[1].(*net.TCPConn); ok {
-			tc.SetLinger(0)
+		if !stop {
+			x.send(c, d, false)
 		}
-		conns[1].Close()
-		time.Sleep(time.Duration(10+rng.Intn(40)) * time.Millisecond)
-	} else {
-		time.Sleep(time.Duration([]int{0, 2, 20, 100, 300}[rng.Intn(5)]) * time.Millisecond)
+	}()
+}
+
+// abort: the client of connection c vanishes with a reset; the connection stays registered at the server, writing to it fails
+func (x *sdRun) abort(c int) {
+	sd.mu.Lock()
+	sd.aborted[c] = true
+	sd.mu.Unlock()
+	x.rec.Emit("ClientAbort", "c", c)
+	if tc, ok := x.conns[c].(*net.TCPConn); ok {
+		tc.SetLinger(0)
 	}
-	ctx, cancel := context.WithTimeout(context.Background(), ctxTimeout)
-	rec.Emit("ShutdownStart")
+	x.conns[c].Close()
+}
+
+// shutdown is call k of Shutdown on the server, with its own context
+func (x *sdRun) shutdown(k int, timeout time.Duration) {
+	ctx, cancel := context.WithTimeout(context.Background(), timeout)
+	x.rec.Emit("ShutdownStart", "k", k, "ctx", int(timeout.Milliseconds()))
 	t0 := time.Now()
-	srv.Shutdown(ctx)
+	x.srv.Shutdown(ctx)
+	ms := int(time.Since(t0).Milliseconds())
 	expired := ctx.Err() != nil
-	rec.Emit("ShutdownEnd", "expired", expired, "ms", int(time.Since(t0).Milliseconds()))
+	x.rec.Emit("ShutdownEnd", "k", k, "expired", expired, "ms", ms, "ctx", int(timeout.Milliseconds()))
 	cancel()
+}
+
+func (x *sdRun) shutdownAsync(k int, timeout time.Duration) {
+	x.calls.Add(1)
+	go func() { defer x.calls.Done(); x.shutdown(k, timeout) }()
+}
+
+func (x *sdRun) finish() []tr.Ev {
+	x.calls.Wait()
 	// wait beyond every handler duration so that "never answered" is not "not yet answered"
 	done := make(chan struct{})
-	go func() { readers.Wait(); close(done) }()
+	go func() { x.readers.Wait(); close(done) }()
 	select {
 	case <-done:
 	case <-time.After(4500 * time.Millisecond):
 	}
 	select {
-	case <-served:
+	case <-x.served:
 	case <-time.After(1500 * time.Millisecond):
 	}
 	// the hook after conn.Close() runs after the client can see the end of the stream: wait for the report of every
@@ -280,10 +302,178 @@ func sdScenario(rng *rand.Rand, n, q int, ctxTimeout time.Duration, abortAll boo
 	sd.mu.Lock()
 	sd.rec = nil
 	sd.mu.Unlock()
-	for c := 1; c <= nconn; c++ {
-		conns[c].Close()
+	evs := x.rec.Close() // before the harness closes the clients' sockets: a reader's error from now on is the harness's doing
+	for c := 1; c <= x.nconn; c++ {
+		x.conns[c].Close()
 	}
-	return append(rec.Close(), tr.Ev{"e": "End"})
+	return append(evs, tr.Ev{"e": "End"})
+}
+
+// sdScenario: 1-2 connections, 0-6 requests, one call of Shutdown 0-300 ms after the last request
+func sdScenario(rng *rand.Rand, n, q int, ctxTimeout time.Duration, abortAll bool) []tr.Ev {
+	nconn := 1 + rng.Intn(2)
+	if abortAll {
+		nconn = 2
+	}
+	x := sdOpen(n, q, nconn)
+	long := rng.Intn(4) == 0 // one handler that outlasts the poller's 2-second idle rule
+	abort := !long && nconn == 2 && rng.Intn(4) == 0
+	if abortAll {
+		long, abort = false, true
+	}
+	durs := []uint32{0, 0, 30, 150, 400}
+	nreq := rng.Intn(7)
+	if abort && nreq < 2 {
+		nreq = 2
+	}
+	if n > 0 && rng.Intn(2) == 0 { // load that keeps the pool's queue occupied when the shutdown begins
+		durs = []uint32{30, 150, 400, 400}
+		nreq = 3 + rng.Intn(4)
+	}
+	for r := 1; r <= 8 && nreq > 0; r++ {
+		c := 2 - r%2 // odd -> 1, even -> 2
+		if c > nconn {
+			continue
+		}
+		nreq--
+		d := durs[rng.Intn(len(durs))]
+		if long {
+			d, long = 2700, false
+		}
+		if abort && c == 1 && r == 1 {
+			d = 300 // the request that is still running when its client vanishes
+		}
+		x.send(c, d, r == 3 || r == 6) // the second request of connection 1 and the third of connection 2 are one-way
+		if rng.Intn(3) == 0 {
+			time.Sleep(time.Duration(rng.Intn(20)) * time.Millisecond)
+		}
+	}
+	if abort && nconn == 2 {
+		// the client of connection 1 vanishes with a reset while its request is still being handled;
+		// the client of connection 2 is healthy and must get its notification all the same
+		time.Sleep(15 * time.Millisecond)
+		x.abort(1)
+		time.Sleep(time.Duration(10+rng.Intn(40)) * time.Millisecond)
+	} else {
+		time.Sleep(time.Duration([]int{0, 2, 20, 100, 300}[rng.Intn(5)]) * time.Millisecond)
+	}
+	if !abort && rng.Intn(3) == 0 {
+		// a request that arrives while Shutdown is running (often on a server that was idle when the accept loop left)
+		x.sendLate(1+rng.Intn(nconn), 200+rng.Intn(100), []uint32{0, 30, 150}[rng.Intn(3)])
+	}
+	x.shutdown(1, ctxTimeout)
+	return x.finish()
+}
+
+// sdCalls makes the calls of Shutdown of a run: one call, or several, overlapping or one after the other, each with
+// its own context (the long one, or a short one that expires while handlers are still running).
+//
+//	plan 0: one call
+//	plan 1: a second call 100-900 ms after the first was started (both running), possibly a third
+//	plan 2: the first call has a short context; when it has returned a second call follows at once
+//	plan 3: the first call runs until everything has drained; a second call follows at once
+func sdCalls(x *sdRun, rng *rand.Rand, plan int, ctxTimeout time.Duration) {
+	short := func() time.Duration { return time.Duration(300+rng.Intn(600)) * time.Millisecond }
+	if rng.Intn(3) == 0 { // a request that arrives while Shutdown is running, on a connection in whatever state
+		x.sendLate(1+rng.Intn(x.nconn), 200+rng.Intn(100), []uint32{0, 30, 150}[rng.Intn(3)])
+	}
+	switch plan {
+	case 0:
+		x.shutdown(1, ctxTimeout)
+	case 1:
+		first, second := ctxTimeout, ctxTimeout
+		switch rng.Intn(4) {
+		case 0:
+			first = short()
+		case 1:
+			second = short()
+		}
+		x.shutdownAsync(1, first)
+		time.Sleep(time.Duration(100+rng.Intn(800)) * time.Millisecond)
+		x.shutdownAsync(2, second)
+		if rng.Intn(3) == 0 {
+			time.Sleep(time.Duration(50+rng.Intn(600)) * time.Millisecond)
+			x.shutdownAsync(3, ctxTimeout)
+		}
+	case 2:
+		x.shutdown(1, short())
+		x.shutdown(2, ctxTimeout)
+	case 3:
+		x.shutdown(1, ctxTimeout)
+		x.shutdown(2, ctxTimeout)
+		if rng.Intn(2) == 0 {
+			x.shutdown(3, short())
+		}
+	}
+}
+
+// sdTwice: 1-3 connections, at least one request whose handler runs 1.2-2.7 s when Shutdown is called, several calls of Shutdown
+func sdTwice(rng *rand.Rand, n, q int, ctxTimeout time.Duration) []tr.Ev {
+	nconn := 1 + rng.Intn(3)
+	x := sdOpen(n, q, nconn)
+	busy := 1 + rng.Intn(nconn)
+	durs := []uint32{0, 30, 150, 400}
+	for c := 1; c <= nconn; c++ {
+		for i := rng.Intn(3); i > 0; i-- {
+			x.send(c, durs[rng.Intn(len(durs))], rng.Intn(6) == 0)
+		}
+		if c == busy {
+			x.send(c, uint32(1200+500*rng.Intn(4)), false)
+		}
+		if rng.Intn(3) == 0 {
+			time.Sleep(time.Duration(rng.Intn(20)) * time.Millisecond)
+		}
+	}
+	time.Sleep(time.Duration([]int{2, 20, 100, 300}[rng.Intn(4)]) * time.Millisecond)
+	sdCalls(x, rng, 1+rng.Intn(3), ctxTimeout)
+	return x.finish()
+}
+
+// sdMix: 3-6 connections in different states when Shutdown is called: silent from the start, silent for more than two
+// seconds after some early traffic (both idle by the poller's rule), a request in flight whose handler runs 0.7-2.7 s
+// (longer than one or several rounds of the poller), recent short requests (in flight, queued or just answered).
+func sdMix(rng *rand.Rand, n, q int, ctxTimeout time.Duration) []tr.Ev {
+	nconn := 3 + rng.Intn(4)
+	x := sdOpen(n, q, nconn)
+	const (
+		silent = iota
+		early
+		busy
+		recent
+	)
+	roles := make([]int, nconn+1)
+	for c := 1; c <= nconn; c++ {
+		roles[c] = rng.Intn(4)
+	}
+	perm := rng.Perm(nconn)
+	roles[perm[0]+1] = busy
+	roles[perm[1]+1] = []int{silent, early}[rng.Intn(2)]
+	for c := 1; c <= nconn; c++ {
+		if roles[c] == early || (roles[c] != silent && rng.Intn(3) == 0) {
+			for i := 1 + rng.Intn(2); i > 0; i-- {
+				x.send(c, []uint32{0, 0, 30}[rng.Intn(3)], rng.Intn(6) == 0)
+			}
+		}
+	}
+	time.Sleep(time.Duration(2150+rng.Intn(300)) * time.Millisecond)
+	for _, i := range rng.Perm(nconn) {
+		c := i + 1
+		switch roles[c] {
+		case busy:
+			x.send(c, uint32(700+500*rng.Intn(5)), false)
+		case recent:
+			for i := 1 + rng.Intn(2); i > 0; i-- {
+				x.send(c, []uint32{0, 30, 150, 400}[rng.Intn(4)], rng.Intn(6) == 0)
+			}
+		}
+	}
+	time.Sleep(time.Duration([]int{2, 20, 100, 300}[rng.Intn(4)]) * time.Millisecond)
+	plan := 0
+	if rng.Intn(3) == 0 {
+		plan = 1 + rng.Intn(3)
+	}
+	sdCalls(x, rng, plan, ctxTimeout)
+	return x.finish()
 }
 
 func shutdownTrace(args []string) error {
@@ -295,15 +485,30 @@ func shutdownTrace(args []string) error {
 	out := fs.String("out", "trace.ndjson", "output")
 	ctxMs := fs.Int("ctx", 4000, "Shutdown context timeout in ms")
 	abortAll := fs.Bool("abort", false, "every scenario: two clients, the first vanishes with a reset while its request is running")
+	kind := fs.String("kind", "base", "base: 1-2 connections, one call of Shutdown; twice: several calls of Shutdown; mix: 3-6 connections in different states")
+	only := fs.Int("only", -1, "run only this scenario (each scenario has its own random stream: the same script as in the full run)")
 	fs.Parse(args)
-	rng := rand.New(rand.NewSource(*seed))
 	vhook.Set(sdHook)
 	w, err := tr.Create(*out)
 	if err != nil {
 		return err
 	}
 	for i := 0; i < *num; i++ {
-		for _, ev := range sdScenario(rng, *pool, *qcap, time.Duration(*ctxMs)*time.Millisecond, *abortAll) {
+		if *only >= 0 && i != *only {
+			continue
+		}
+		rng := rand.New(rand.NewSource(*seed*7919 + int64(i)))
+		var evs []tr.Ev
+		switch *kind {
+		case "twice":
+			evs = sdTwice(rng, *pool, *qcap, time.Duration(*ctxMs)*time.Millisecond)
+		case "mix":
+			evs = sdMix(rng, *pool, *qcap, time.Duration(*ctxMs)*time.Millisecond)
+		default:
+			evs = sdScenario(rng, *pool, *qcap, time.Duration(*ctxMs)*time.Millisecond, *abortAll)
+		}
+		evs[0]["sc"], evs[0]["kind"], evs[0]["dseed"], evs[0]["abort"] = i, *kind, *seed, *abortAll // what a re-run of this scenario needs
+		for _, ev := range evs {
 			w.Write(ev)
 		}
 	}
